@@ -233,6 +233,7 @@ var props = map[string]propDef{
 	"C08": {"C08", "proxy", 40, 600, "W-proxy", 0, 0},
 	"C14": {"C14", "proxy", 40, 600, "W-proxy", 0, 0},
 	"C17": {"C17", "proxy", 40, 600, "W-proxy", 0, 0},
+	"C11": {"C11", "proxy", 40, 600, "W-proxy", 0, 0},
 	"C12": {"C12", "update", 40, 600, "W-update", 0, 0},
 	"C20": {"C20", "update", 40, 600, "W-update", 0, 0},
 	"C05": {"C05", "lb", 30, 600, "W-lb", 200, 0},
